@@ -1,6 +1,5 @@
 //! Kani harness for `UpdateMessageFlags::last` (C03: the last section is the one written unsized).
 use super::*;
-use alloc::vec::Vec;
 
 // HARNESS: c03_flags_last
 // PROPS: C03
@@ -23,87 +22,3 @@ fn c03_flags_last() {
     kani::cover!(last == UpdateMessageFlags::MAPPINGS, "only mappings");
 }
 
-// HARNESS: probe_v1
-// PROPS: X01
-// TIER: quick
-// TIMEOUT: 300
-#[kani::proof]
-#[kani::unwind(6)]
-fn probe_v1() {
-    let mut v: Vec<core::ops::Range<usize>> = Vec::new();
-    if kani::any() {
-        v.push(0..1);
-    }
-    if kani::any() {
-        v.push(1..2);
-    }
-    assert!(v.len() <= 2);
-    kani::cover!(v.len() == 2, "x");
-    core::mem::forget(v);
-}
-
-// HARNESS: probe_v2
-// PROPS: X01
-// TIER: quick
-// TIMEOUT: 300
-#[kani::proof]
-#[kani::unwind(6)]
-fn probe_v2() {
-    let mut v: Vec<u8> = Vec::new();
-    if kani::any() {
-        v.extend([1u8]);
-    }
-    if kani::any() {
-        v.extend([2u8]);
-    }
-    if kani::any() {
-        v.extend_from_slice(&[3u8, 4]);
-    }
-    assert!(v.len() <= 4);
-    kani::cover!(v.len() == 4, "x");
-    core::mem::forget(v);
-}
-
-// HARNESS: probe_v3
-// PROPS: X01
-// TIER: quick
-// TIMEOUT: 300
-#[kani::proof]
-#[kani::unwind(6)]
-fn probe_v3() {
-    let mut v: Vec<u8> = Vec::new();
-    if kani::any() {
-        v.extend([1u8]);
-    }
-    if kani::any() {
-        v.extend([2u8]);
-    }
-    let mut m: Vec<u8> = Vec::with_capacity(v.len());
-    m.extend_from_slice(&v[..]);
-    assert!(m.len() <= 2);
-    kani::cover!(m.len() == 2, "x");
-    core::mem::forget((v, m));
-}
-
-// HARNESS: probe_v4
-// PROPS: X01
-// TIER: quick
-// TIMEOUT: 300
-#[kani::proof]
-#[kani::unwind(6)]
-fn probe_v4() {
-    let mut v: Vec<core::ops::Range<usize>> = Vec::new();
-    if kani::any() {
-        v.push(0..1);
-    }
-    if kani::any() {
-        v.push(1..2);
-    }
-    let mut n = 0;
-    for r in v.drain(..) {
-        n += r.len();
-    }
-    assert!(n <= 2);
-    kani::cover!(n == 2, "x");
-    core::mem::forget(v);
-}
